@@ -90,6 +90,9 @@ func (vm *VM) FindModuleByName(name string) *Module {
 func (vm *VM) CheckDepedency(name string) error {
 	moduleID, exists := vm.moduleGraph.GetIDFromName(name)
 	if exists {
+		// record the edge importer -> imported: AddModule records it only when the module is
+		// loaded for the first time, so the edge that closes a cycle was never in the graph
+		vm.moduleGraph.AddDependency(vm.csModuleID, name, moduleID)
 		// check circular dependency
 		if vm.moduleGraph.CheckCircularDepedency(vm.csModuleID, moduleID) {
 			return zerr.ModuleCircularDependency()
